@@ -139,6 +139,14 @@ def QUERIES(tier):
                              '_D': G({'DISK_GB': None})}, policy='none'),
         'u-req+D': Query({'': G({'VCPU': None}, req=[[T1]]),
                           '_D': G({'DISK_GB': None})}, policy='none'),
+        # two suffixed groups asking for the same class below 1.34, where
+        # the response does not show which group landed where
+        '1+2-none@1.28': Query({'1': G({'VCPU': None}),
+                                '2': G({'VCPU': 1})}, policy='none',
+                               version='1.28'),
+        '1+2-isolate@1.33': Query({'_1': G({'VCPU': None}),
+                                   '_2': G({'VCPU': 1})}, policy='isolate',
+                                  version='1.33'),
         'u+1-forb-req': Query({'': G({'VCPU': None}, forb=[T1]),
                                '_1': G({'VCPU': 1}, req=[[T1]])},
                               policy='none'),
@@ -158,6 +166,7 @@ QUICK = [('flat', 'u-vcpu-disk', False), ('tree-t', 'u-req', False),
          ('flat-a', 'u-mem+D', False)]
 
 THOROUGH_EXTRA = [
+    ('tree', '1+2-none@1.28', False), ('tree', '1+2-isolate@1.33', False),
     ('flat-a', 'D+u-mem', False), ('tree-a', 'u-mem+D', False),
     ('flat-a', 'u-forbmem+D', False), ('tree', 'u-intree+D', False),
     ('flat-t', 'u-req+D', False), ('tree-t', 'u-req+D', False),
@@ -220,7 +229,15 @@ def make_family(tname, qname, query, usage=False):
                            'returned candidate %s / %s is not a valid '
                            'combination' % (sorted(e['alloc']), e['maps']),
                            sig='extra')
+                # below 1.34 the response does not show the mappings: two
+                # combinations that differ only in which suffixed group
+                # landed where are distinct (allocations, mappings) pairs
+                # that look alike, so likeness proves nothing there
+                blind = e['maps'] is None and \
+                    sum(1 for s_ in query.groups if s_) >= 2
                 for e2 in entries[:i]:
+                    if blind:
+                        break
                     if set(e2['alloc']) == set(e['alloc']) and \
                             e2['maps'] == e['maps']:
                         same = And(*[symex.to_z3(e['alloc'][k]) ==
